@@ -55,6 +55,12 @@ def check_one(con, hooks, inputs, timeout_s):
             c.snapshot(env)
         except Exception as e:
             problems.append(f"old() of {c.label}: {e!r}")
+    for (lbl, text) in con.requires_:
+        try:
+            if not eval(text, dict(env)):
+                return {"kind": "precondition-not-met", "requires": lbl}, [], problems
+        except Exception as e:
+            problems.append(f"requires {lbl}: {e!r}")
     whens = []
     for k, (exc, when, iff) in enumerate(con.raises_):
         if k in con.at_raise:
